@@ -46,10 +46,28 @@ def main(argv=None):
 
     res = Result(args.prop, args.tier, args.seed, args.shard)
     rng = random.Random(args.seed * 1000 + args.shard)
+    import os
+    cov_dir = os.environ.get('MTV_FUNCCOV')
+    entered = set()
+    if cov_dir:
+        # development aid (tools/funccov.sh): which functions of the repository does this workload enter at all
+        mon = sys.monitoring
+        mon.use_tool_id(4, 'mtv-funccov')
+
+        def on_start(code, offset):
+            if '/maltoolbox/' in code.co_filename:
+                entered.add('%s:%s' % (code.co_filename.split('/maltoolbox/', 1)[1], code.co_qualname))
+            return mon.DISABLE
+        mon.register_callback(4, mon.events.PY_START, on_start)
+        mon.set_events(4, mon.events.PY_START)
     mod.run(rng, res, args.tier, args.shard, args.of)
     from mtv import stream
     for k, v in stream.STATS.items():
         res.counters['env:' + k] = res.counters.get('env:' + k, 0) + v
+    if cov_dir:
+        os.makedirs(cov_dir, exist_ok=True)
+        with open(os.path.join(cov_dir, '%s-%d.txt' % (args.prop, args.shard)), 'w') as f:
+            f.write('\n'.join(sorted(entered)))
     with open(args.out, 'w') as f:
         json.dump(res.to_json(), f, default=repr)
     return 0
